@@ -256,6 +256,12 @@ def run(tier, rep):
         for c in CATASTROPHIC:
             plus.append(t0 + ' ' + c)
             plus.append(t0 + c)
+    # ... and followed by every lexeme of the alphabet plus a line break
+    for p in dead:
+        t0 = trie.render(AB.A, p)
+        for x in AB.A:
+            x = '\n' if x == trie.LF else x
+            plus.append(t0 + ' ' + x + '\n')
     total.merge(run_texts(plus, ('parse',)))
     rep.space('S1-lookahead', depth=d, dead=len(dead), viable=len(viable),
               texts=len(plus) + len(s1))
